@@ -33,7 +33,7 @@ REQUIRED_MONITORS = ["pinhole_converges", "slit_length_converges", "slit_width_c
 REQUIRED_BUCKETS = {"quick": ["geom:pinhole", "geom:slit(L,0)", "geom:slit(0,W)", "geom:slit(L,W)", "geom:2d",
                               "f:poly", "f:lorentz2", "f:dampedcos", "window_crosses_zero", "acc:low", "acc:med",
                               "acc:high", "acc:xhigh", "q<W", "sigma:interior-point-widest", "pixel_on_axis", "q_calc:without-data-points", "pixel_with_one_zero_width", "coordinates_rewritten_after_construction", "calculator:copy", "calculator:deepcopy", "calculator:pickle",
-                              "caller-arrays-reused-before-first-apply", "slit:per-point-arrays", "route:data-object-with-some-zero-widths", "q_calc:partly-refined", "q_calc:geometric"]}
+                              "caller-arrays-reused-before-first-apply", "slit:per-point-arrays", "route:data-object-with-some-zero-widths", "q_calc:partly-refined", "q_calc:geometric", "route:data-listed-in-decreasing-q"]}
 REQUIRED_BUCKETS["thorough"] = REQUIRED_BUCKETS["quick"]
 
 
@@ -371,21 +371,29 @@ def run_dm(case, rec):
         h = h0*mult
         q = qlo + h*np.arange(int((qhi - qlo)/h) + 1)
         dq = np.full(len(q), sigma)
+        if k % 4 >= 2:
+            dq = sigma*(0.6 + 0.8*(q - qlo)/(qhi - qlo))       # widths growing with q (per-point resolution)
         zero = np.zeros(len(q), bool)
-        zero[rng.choice(np.arange(3, len(q) - 3), 3, replace=False)] = True
+        zero[rng.choice(np.arange(3, len(q) - 3), 3, replace=False)] = True        # (never an end point)
         # probes: the data points nearest to five fixed positions, none of them a zero-width point
-        pidx = sorted({int(np.argmin(np.abs(q - x_) + 1e9*zero)) for x_ in probe})
+        pidx = sorted({int(np.argmin(np.abs(q - x_) + 1e9*zero)) for x_ in probe} | {0, len(q) - 1})   # and both end points
         dq[zero] = 0.0
+        order = np.arange(len(q))[::-1] if k % 4 == 3 else np.arange(len(q))      # a scan written in decreasing q
+        if k % 4 == 3 and mult == 1:
+            rec.bucket("route:data-listed-in-decreasing-q")
         if via == "DirectModel":
-            d = sdata.empty_data1D(q, resolution=0.0)
-            d.dx = dq.copy()
+            d = sdata.empty_data1D(q[order].copy(), resolution=0.0)
+            d.dx = dq[order].copy()
             got = np.asarray(direct_model.DirectModel(d, model)(rg=rg, scale=scale, background=0.0), float)
         else:
-            got = np.asarray(direct_model.Iq("guinier", q, dq=dq.copy(), rg=rg, scale=scale, background=0.0), float)
-        exact = np.array([exact_pinhole(f, float(q[j]), sigma) for j in pidx])
+            got = np.asarray(direct_model.Iq("guinier", q[order].copy(), dq=dq[order].copy(), rg=rg, scale=scale, background=0.0), float)
+        got = got[np.argsort(order)]                  # back to increasing q for the comparison
+        exact = np.array([exact_pinhole(f, float(q[j]), float(dq[j])) for j in pidx])
         errs.append(np.abs(got[pidx] - exact))
-        S = float(np.ptp(f(np.linspace(qlo - 3*sigma, qhi + 3*sigma, 400))))
-        bounds.append(0.15*(h/sigma)*S)
+        # bound per probe: 0.04 x step over width x the variation of I over that probe's own window (the automatic grid has
+        # the data's own spacing; over 96 sampled cases the unchanged code stays below a fifth of this bound)
+        bounds.append(np.array([0.04*(h/float(dq[j]))*float(np.ptp(f(np.linspace(max(q[j] - 2.5*dq[j], 0.0), q[j] + 3.0*dq[j], 200))))
+                                for j in pidx]))
         okz &= bool(np.all(np.abs(got[zero] - f(q[zero])) <= 1e-6*np.abs(f(q[zero]))))
     ok = all(bool(np.all(e <= b)) for e, b in zip(errs, bounds))
     smear = float(np.max(np.abs(exact - f(q[pidx]))))
@@ -395,8 +403,8 @@ def run_dm(case, rec):
                                "smearing_effect_at_probes": smear})
     rec.check("zero_width_points_unsmeared", okz, {"via": via, "rg": rg, "sigma": sigma})
     rec.bucket("route:data-object-with-some-zero-widths", "geom:pinhole")
-    rec.count("max_err_over_bound_x1000", int(1000*max(float(np.max(e)/b) for e, b in zip(errs, bounds))))
-    rec.set_shape(("dm", via, round(rg), round(sigma*rg, 2)), nontrivial=smear > 3*bounds[-1])
+    rec.count("dm_max_err_over_bound_x1000", int(1000*max(float(np.max(e/b)) for e, b in zip(errs, bounds))))
+    rec.set_shape(("dm", via, round(rg), round(sigma*rg, 2)), nontrivial=smear > 3*float(np.max(bounds[-1])))
 
 
 def run_case(case, rec):
